@@ -92,6 +92,12 @@ type pextract struct {
 	pe        *printerEvents
 	locals    map[types.Object]string // bool locals bound to a paren guard: name -> "paren:<field>"
 	rangeVars map[types.Object]string // range value variable -> loop field path
+	// helper functions of package ast that take the writer are walked in place, their parameters bound to what the
+	// call site passes (a field path of the node and/or a classified condition)
+	cwAlias   map[types.Object]bool
+	paramPath map[types.Object]string
+	paramCond map[types.Object][2]string // cond, "neg" or ""
+	depth     int
 }
 
 // fieldPath renders recv.A.B as "A.B"; range variables as "<loopfield>[]" + rest.
@@ -104,6 +110,9 @@ func (x *pextract) fieldPath(e ast.Expr) (string, bool) {
 		}
 		if lp, ok := x.rangeVars[obj]; ok {
 			return lp + "[]", true
+		}
+		if pp, ok := x.paramPath[obj]; ok {
+			return pp, true
 		}
 	case *ast.SelectorExpr:
 		if base, ok := x.fieldPath(v.X); ok {
@@ -124,7 +133,7 @@ func (x *pextract) isWriterCall(call *ast.CallExpr) (string, bool) {
 		return "", false
 	}
 	id, ok := sel.X.(*ast.Ident)
-	if !ok || x.info.ObjectOf(id) != x.cw {
+	if !ok || (x.info.ObjectOf(id) != x.cw && !x.cwAlias[x.info.ObjectOf(id)]) {
 		return "", false
 	}
 	return sel.Sel.Name, true
@@ -136,7 +145,11 @@ func (x *pextract) block(stmts []ast.Stmt) []*pev {
 		switch s := st.(type) {
 		case *ast.ExprStmt:
 			if call, ok := s.X.(*ast.CallExpr); ok {
-				out = append(out, x.call(call))
+				if evs, ok := x.inlineHelper(call); ok {
+					out = append(out, evs...)
+				} else {
+					out = append(out, x.call(call))
+				}
 			} else {
 				out = append(out, &pev{kind: evOther, text: "expression statement", pos: st.Pos()})
 			}
@@ -230,6 +243,9 @@ func (x *pextract) cond(e ast.Expr) (string, bool) {
 		if k, ok := x.locals[x.info.ObjectOf(v)]; ok {
 			return k, false
 		}
+		if pc, ok := x.paramCond[x.info.ObjectOf(v)]; ok {
+			return pc[0], pc[1] == "neg"
+		}
 	case *ast.SelectorExpr:
 		if fp, ok := x.fieldPath(v); ok {
 			return "flag:" + fp, false
@@ -252,6 +268,97 @@ func (x *pextract) cond(e ast.Expr) (string, bool) {
 		}
 	}
 	return "other", false
+}
+
+// inlineHelper: a call of a function or method of package ast (not a writer method) that is handed the writer is walked
+// in place. Parameters are bound eagerly, in the caller's context, to the field path and/or the classified condition
+// of the argument.
+func (x *pextract) inlineHelper(call *ast.CallExpr) ([]*pev, bool) {
+	if _, isW := x.isWriterCall(call); isW {
+		return nil, false
+	}
+	f, ok := calleeFunc(x.info, call)
+	if !ok || f.Pkg() == nil || f.Pkg().Path() != modPath+"/ast" || f.Name() == "WriteTo" {
+		return nil, false
+	}
+	fd := x.c.declIdx[f]
+	if fd == nil || fd.Body == nil || x.depth >= 3 {
+		return nil, false
+	}
+	// collect the parameter objects in order (receiver first for methods)
+	var params []types.Object
+	var args []ast.Expr
+	if fd.Recv != nil && len(fd.Recv.List) == 1 && len(fd.Recv.List[0].Names) == 1 {
+		sel, ok := call.Fun.(*ast.SelectorExpr)
+		if !ok {
+			return nil, false
+		}
+		params = append(params, x.info.Defs[fd.Recv.List[0].Names[0]])
+		args = append(args, sel.X)
+	}
+	for _, fl := range fd.Type.Params.List {
+		for _, n := range fl.Names {
+			params = append(params, x.info.Defs[n])
+		}
+	}
+	args = append(args, call.Args...)
+	if len(params) != len(args) {
+		return nil, false
+	}
+	takesWriter := false
+	for i, p := range params {
+		if p != nil && namedIs(p.Type(), "ast", "CodeWriter") {
+			if id, ok := args[i].(*ast.Ident); ok && (x.info.ObjectOf(id) == x.cw || x.cwAlias[x.info.ObjectOf(id)]) {
+				takesWriter = true
+			}
+		}
+	}
+	if !takesWriter {
+		return nil, false
+	}
+	savedPath, savedCond, savedAlias := x.paramPath, x.paramCond, x.cwAlias
+	np, nc, na := map[types.Object]string{}, map[types.Object][2]string{}, map[types.Object]bool{}
+	for k, v := range savedPath {
+		np[k] = v
+	}
+	for k, v := range savedCond {
+		nc[k] = v
+	}
+	for k, v := range savedAlias {
+		na[k] = v
+	}
+	for i, p := range params {
+		if p == nil {
+			continue
+		}
+		if namedIs(p.Type(), "ast", "CodeWriter") {
+			na[p] = true
+			continue
+		}
+		if fp, ok := x.fieldPath(args[i]); ok {
+			np[p] = fp
+		}
+		if b, ok := p.Type().Underlying().(*types.Basic); ok && b.Kind() == types.Bool {
+			cd, neg := x.cond(args[i])
+			n := ""
+			if neg {
+				n = "neg"
+			}
+			nc[p] = [2]string{cd, n}
+		}
+	}
+	x.paramPath, x.paramCond, x.cwAlias = np, nc, na
+	x.depth++
+	evs := x.block(fd.Body.List)
+	x.depth--
+	x.paramPath, x.paramCond, x.cwAlias = savedPath, savedCond, savedAlias
+	// an early return inside the helper ends the helper, not the printer
+	for _, e := range evs {
+		if e.kind == evRet {
+			return nil, false
+		}
+	}
+	return evs, true
 }
 
 func (x *pextract) call(call *ast.CallExpr) *pev {
